@@ -206,18 +206,29 @@ def AnchoredFrag (re : Re) (info : AnchoredLiteralInfo) : Prop :=
 def wildcardDotNL (re : Re) : Bool :=
   re.sub.any fun w => isGreedyWildcard w && (match w.sub with | [x] => decide (x.op = .anyChar) | _ => false)
 
-/-- the sub-language on which `ExtractFirstBytes` is a sound filter: case-sensitive literals starting with an ASCII
-    rune, classes of ASCII runes only, `.`, captures, concatenations (after leading `^`/`\\A`), alternations, `+`,
-    `{n,…}` with `n ≥ 1` — in particular NO zero-width alternative or factor in first position.
-    Same fuel discipline as `extractFirstBytesRec`. -/
+/-! ### ExtractFirstBytes
+
+  After the fix of nfa/firstbytes.go (full `SimpleFold` orbit of a `FoldCase` literal, UTF-8 lead byte of a non-ASCII
+  literal, every byte `≥ 0x80` for a class reaching above U+007F) the case-sensitivity / ASCII restrictions of the former
+  fragment are gone.  What is left is structural: the Go function still answers `true` WITHOUT adding a byte (and without
+  clearing `complete`) when the node in first position is a zero-width assertion.  `fbFrag` describes the accepted
+  patterns on which that is harmless:
+    * no `^` / `\A` / `(?m)$` in FIRST position other than as a leading element of a concatenation (which the Go loop
+      skips: `(?:^)a` is fine, `(^)a`, `a|^`, `(?m)a|$` are not).  `\z` / non-multiline `$` in first position IS allowed:
+      it only matches at the end of the haystack, and every caller guards the filter with `len(haystack) > 0`;
+    * a literal's first rune is not U+FFFD: the reference matcher (like `regexp`) decodes every ill-formed byte as
+      U+FFFD, so the literal `\x{FFFD}` matches the haystack `FF`, whose first byte is not `EF`;
+    * `{n,…}` has `n > 0` (the Go code tests `Min == 0`; a negative `Min` is never parsed).
+  Same fuel discipline as `extractFirstBytesRec`. -/
 def fbFrag : Nat → Re → Bool
   | 0, _ => false
   | fuel+1, re =>
     match re.op with
-    | .literal => !re.foldCase && (match re.rune with | r :: _ => decide (r ≤ 127) | [] => false)
-    | .charClass => (pairs re.rune).all fun p => decide (p.2 ≤ 127)
+    | .literal => (match re.rune with | r :: _ => decide (r ≠ Utf8.runeError) | [] => false)
+    | .charClass => true
     | .anyCharNotNL => true
     | .anyChar => true
+    | .endText => true
     | .capture => match re.sub with | [x] => fbFrag fuel x | _ => false
     | .concat =>
       match re.sub.find? (fun s => !(decide (s.op = .beginLine) || decide (s.op = .beginText))) with
@@ -227,6 +238,11 @@ def fbFrag : Nat → Re → Bool
     | .plus => match re.sub with | [x] => fbFrag fuel x | _ => false
     | .repeat_ => decide (re.min > 0) && (match re.sub with | [x] => fbFrag fuel x | _ => false)
     | _ => false
+
+/-- the parameter `foldOrbit` (standing for the `unicode.SimpleFold` loop) lists at least the case variants the
+    reference matcher folds (`Ref.foldEq`: the ASCII letters).  True of Go's tables (`simpleFoldOrbit_sound` in
+    Cx.DriverFast checks the driver's table); a LARGER orbit only makes the filter more permissive. -/
+def OrbitSound (foldOrbit : Nat → List Nat) : Prop := ∀ a b, Ref.foldEq a b = true → a = b ∨ b ∈ foldOrbit a
 
 /-! ### BranchDispatcher
 
